@@ -422,6 +422,58 @@ pub fn run(ctx: &mut Ctx) {
     // strings through the lexical parser
     let mut sink = |ctx: &mut Ctx, f: Fmt, s: &str, family: &'static str| probe_string(ctx, f, s, family);
     hostile_workload(ctx, 0xC05, 800_000, 16_000_000, &mut sink);
+    // many threads inside the lexical entry points at the same time (the static formats are shared by all
+    // threads of a process): no call may panic, and the parser must still work afterwards
+    if ctx.shard < 4 {
+        for f in ALL_FMT {
+            let g = StrGen::new(f);
+            let mut rng = ctx.rng(0xC05C);
+            let mut texts: Vec<String> = (0..24).map(|_| g.wellformed(&mut rng, 3)).collect();
+            texts.extend(["", "(", "{A,", "<A --> B>", "A", "(*, A, B)"].iter().map(|s| s.to_string()));
+            let texts = std::sync::Arc::new(texts);
+            let rounds = if ctx.thorough { 40 } else { 6 };
+            for round in 0..rounds {
+                ctx.report.eval();
+                ctx.report.bump("family.16-threads-at-once");
+                let panics = std::sync::Arc::new(std::sync::atomic::AtomicU64::new(0));
+                let first = std::sync::Arc::new(std::sync::Mutex::new(None::<String>));
+                let barrier = std::sync::Arc::new(std::sync::Barrier::new(16));
+                let hs: Vec<_> = (0..16)
+                    .map(|ti| {
+                        let (texts, panics, first, barrier) = (texts.clone(), panics.clone(), first.clone(), barrier.clone());
+                        std::thread::spawn(move || {
+                            barrier.wait();
+                            for i in 0..1500usize {
+                                let s = &texts[(i * 7 + ti + round) % texts.len()];
+                                for entry in ["parse_term", "parse"] {
+                                    if let Err(p) = lex_call(f, entry, s) {
+                                        panics.fetch_add(1, std::sync::atomic::Ordering::Relaxed);
+                                        if let Ok(mut g) = first.lock() {
+                                            g.get_or_insert_with(|| format!("{} on {:?}: {}", entry, s, p));
+                                        }
+                                    }
+                                }
+                            }
+                        })
+                    })
+                    .collect();
+                for h in hs {
+                    let _ = h.join();
+                }
+                let n = panics.load(std::sync::atomic::Ordering::Relaxed);
+                let after = lex_call(f, "parse_term", "A").is_err() || lex_call(f, "parse", "A.").is_err();
+                if n > 0 || after {
+                    let w = first.lock().ok().and_then(|g| g.clone()).unwrap_or_default();
+                    ctx.report.violate(
+                        format!("C05|concurrent|{}", f.name()),
+                        format!("[{}] {} lexical call(s) panicked while 16 threads were parsing at the same time (first: {}){}", f.name(), n, w, if after { "; the parser still panics afterwards on a single thread" } else { "" }),
+                        J::obj().set("kind", "concurrent").set("format", f.name()),
+                    );
+                    break;
+                }
+            }
+        }
+    }
     // every string of up to 3 characters over a small alphabet of the format's own identifier-like
     // keyword characters, letters, digits and brackets (Han: copula / prefix / bracket characters are
     // identifier characters), through both entry points
@@ -531,6 +583,10 @@ pub fn replay(ctx: &mut Ctx, d: &J) -> Option<()> {
         if let Err(p) = super::sanit::exercise(f, &input) {
             ctx.report.violate("C05|exercise-panic".into(), format!("panic while exercising {:?}: {}", input, p), d.clone());
         }
+        return Some(());
+    }
+    if jstr(d, "kind")? == "concurrent" {
+        // (a schedule cannot be replayed in isolation; the family is re-run as a whole by the check)
         return Some(());
     }
     if jstr(d, "kind")? == "fold" {
